@@ -4,16 +4,17 @@ chunk cuts, m-mapping and queriers; every TLC-chosen interleaving forced on real
 META = {
     "text": "Isolation.tla models the head's isolation protocol with one process per goroutine and one action per critical section "
             "(Appender+Append, one commitFloats iteration per sample, closeAppend, Rollback, mmapHeadChunks, isolation.State, "
-            "isolationState.Close) and carries a transcription of memSeries.iterator. TLC checks, over every interleaving of the bounded "
+            "isolationState.Close) and carries transcriptions of memSeries.iterator and of the Seek path over stopIterator. TLC checks, over every interleaving of the bounded "
             "model, that no querier sees a sample of an appender that had not closed when it was created (NoDirty), that what a querier "
             "sees never changes (Stable), that trimming the per-series append-id ring is safe (CleanupSafe, RingConsistent), and that the "
             "querier sees exactly the samples of the appenders closed before it (Complete, Atomic) except in the narrowly characterised "
-            "situation KF-C05-1. Every transition of the quick model and seeded random walks of a larger one are then forced on the real "
+            "situation KF-C05-1, and that reading through Seek agrees with Next except in the situation KF-C05-2. Every transition of the quick model and seeded random walks of a larger one are then forced on the real "
             "tsdb.DB: appender goroutines are parked by the verifhook gate after each per-sample critical section of Commit, queriers are "
             "opened exactly where TLC placed them, and the samples each querier returns are compared with the spec's predictions.",
-    "note": "Bounds: quick 2 appenders x 2 series (4 samples) + 2 readers exhaustively (every transition replayed), 3 appenders (8 samples, "
-            "chunk cuts, ring growth) x 2 readers exhaustively replayed one behaviour per distinct state, 4 appenders x 3 series x 3 readers by "
-            "seeded simulation; thorough adds the 3-appender/2-reader model with rollback (2.7M states) check-only and more walks. Float samples only, OOO disabled, "
+    "note": "Bounds: quick = 2 appenders x 3 samples over 2 series (chunk cut at 2 samples) x 2 readers with rollback, exhaustively, one replayed "
+            "behaviour per distinct state with an open reader; 3 appenders x 1 series x 2 readers (watermark interplay) likewise; 4 appenders x 3 "
+            "series x 3 readers by seeded simulation with views checked after every step. Thorough replays every transition of the first model, adds a "
+            "6-samples-in-one-series model (ring growth), two 3-appender models check-only (0.6M and 2.7M states) and 1600 walks. Float samples only, OOO disabled, "
             "one head chunk range. Steps inside one Select (chunk list snapshot vs iterator creation) are not interleaved with commits. "
             "Trusted: the verifhook gate placement (after series.Unlock in commitFloats), TLC, the harness' value->owner decoding.",
     "technique": "TLA+ model (Isolation.tla) checked by TLC over all interleavings; TLC-generated interleavings replayed on real goroutines "
@@ -27,9 +28,9 @@ def run(ctx):
     import vlib
     q = ctx.quick
     from concurrent.futures import ThreadPoolExecutor
-    with ThreadPoolExecutor(max_workers=4) as ex:
+    with ThreadPoolExecutor(max_workers=6) as ex:
         # (M)+(R) two appenders x three samples, two readers, rollback: every transition emitted
-        f_mc = ex.submit(ctx.tlc, "isolation", "Isolation", "MC_quick.cfg", workers=6, timeout=1500,
+        f_mc = ex.submit(ctx.tlc, "isolation", "Isolation", "MC_quick.cfg", workers=4, timeout=1500,
                          constants={"EmitMode": '"state"' if q else '"all"'})
         # the model must expose the H2 shape when the raw property is checked (guards against a vacuous KF disjunct)
         f_h2 = ex.submit(ctx.tlc, "isolation", "Isolation", "MC_h2.cfg", workers=2, timeout=600, allow_violation=True)
@@ -37,11 +38,13 @@ def run(ctx):
         # (R) seeded random walks of the 4-appender model, predicted views after every step
         f_sim = ex.submit(ctx.tlc, "isolation", "Isolation", "SIM.cfg", simulate=(8 if q else 400), depth=45, workers=4,
                           timeout=(200 if q else 1500))
+        # (M)+(R) three appenders x one series x two readers (cleanup bound taken from the oldest reader): one per state
+        f_wm = ex.submit(ctx.tlc, "isolation", "Isolation", "MC_wm.cfg", workers=4, timeout=1500)
         futs = {}
         if not q:
             # (M)+(R) six samples in one series (three chunks, ring growth): one behaviour per distinct state
             futs["ring"] = ex.submit(ctx.tlc, "isolation", "Isolation", "MC_ring.cfg", workers=4, timeout=3000)
-        mc, h2, sk, sim = f_mc.result(), f_h2.result(), f_sk.result(), f_sim.result()
+        mc, h2, sk, sim, wm = f_mc.result(), f_h2.result(), f_sk.result(), f_sim.result(), f_wm.result()
         ring = futs["ring"].result() if futs else None
     if h2.violated != "Complete":
         raise vlib.Infra("MC_h2: expected the raw Complete invariant to fail in the model (KF-C05-1 shape), got %r" % h2.violated)
@@ -50,6 +53,9 @@ def run(ctx):
     ctx.account(mc)
     behs = list(mc.emitted)
     ctx.log("MC_quick: %d generated / %d distinct, %d behaviours (%.0fs)" % (mc.generated, mc.distinct, len(behs), mc.wall))
+    ctx.account(wm)
+    behs += wm.emitted
+    ctx.log("MC_wm: %d generated / %d distinct, %d behaviours (%.0fs)" % (wm.generated, wm.distinct, len(wm.emitted), wm.wall))
     if ring:
         ctx.account(ring)
         behs += ring.emitted
@@ -75,6 +81,7 @@ def run(ctx):
         "Complete/Atomic are checked as Prop \\/ KF_C05_1 (known finding: committed samples hidden behind a sample of a still-open appender in the same series)",
         "ring contents, chunk partition and m-map counts are compared as drift only",
     ]
-    return ctx.finish(rule="every transition of MC_quick, one behaviour per distinct state of MC_mid, seeded walks of SIM; each replayed on "
+    return ctx.finish(rule="one behaviour per distinct state with an open reader (quick) / per transition (thorough) of MC_quick, per state of MC_wm "
+                           "(and MC_ring in thorough), seeded walks of SIM; each replayed on "
                            "real goroutines with gates; after the scheduled steps every open querier is drained per series and compared "
                            "with the predicted view", exhaustive=False)
